@@ -564,6 +564,96 @@ pub fn run(rep: &mut Report, thorough: bool) {
         );
         rep.stage("sibling-destinations", "5 pairs of destination addresses (other address, same /64, same /24) x ordered pairs of 4 protocols: two connections from one client endpoint, the second one answered by the responder of ITS leading bytes", scen2.len() as u64, t0);
     }
+    // non-data segments BETWEEN the segments of a request (a bare ACK with the valid / another
+    // acknowledgement number, a retransmitted SYN, RST, RST|ACK, FIN|ACK, FIN) do not reset, bind or
+    // shift what the connection has seen: the responder is the one the whole stream selects
+    {
+        let t0 = std::time::Instant::now();
+        let firsts: Vec<&Payload> = pls.iter().filter(|p| ["http-get", "ssh-2", "smb2-negotiate", "rpc-tcp-getport", "ghost"].contains(&p.name)).collect();
+        let f = flow(false, 40000, 80);
+        let ck = learn_cookies(&cfg, &[f.clone()]).unwrap_or_default();
+        let c = ck.get(&key_of(&f)).copied().unwrap_or(0).wrapping_add(1);
+        use crate::wire::{F_ACK, F_FIN, F_PSH, F_RST, F_SYN};
+        let between: Vec<(&str, Vec<u8>)> = vec![
+            ("ack-valid", f.tcp(1002, c, F_ACK, b"")),
+            ("ack-other", f.tcp(1002, c.wrapping_add(77), F_ACK, b"")),
+            ("ack-zero", f.tcp(1002, 0, F_ACK, b"")),
+            ("syn", f.tcp(999, 0, F_SYN, b"")),
+            ("rst", f.tcp(1002, c, F_RST, b"")),
+            ("rst-ack", f.tcp(1002, c, F_RST | F_ACK, b"")),
+            ("fin-ack", f.tcp(1002, c, F_FIN | F_ACK, b"")),
+            ("fin", f.tcp(1002, c, F_FIN, b"")),
+            ("empty-data", f.tcp(1002, c, F_PSH | F_ACK, b"")),
+        ];
+        // (first, cut, between, junk-prefix?)
+        let mut plan: Vec<(usize, usize, usize, bool)> = Vec::new();
+        for pi in 0..firsts.len() {
+            // (cuts inside every signature: behind it the per-message responders see segments, not streams)
+            for cut in [1usize, 2, 3] {
+                if cut < firsts[pi].bytes.len() {
+                    for b in 0..between.len() {
+                        plan.push((pi, cut, b, false));
+                    }
+                }
+            }
+            // junk, something in between, then the whole request: the stream starts with junk
+            for b in 0..between.len() {
+                plan.push((pi, 0, b, true));
+            }
+        }
+        let opts = RunOpts::new("interleaved-non-data").stateful().chunk(64).no_monitor();
+        let cfgs = cfg.clone();
+        engine::run(
+            &cfg,
+            plan.len() as u64,
+            &opts,
+            |i| {
+                let (pi, cut, b, junk) = plan[i as usize];
+                let p = &firsts[pi].bytes;
+                if junk {
+                    vec![Cmd::Frame(f.tcp(1000, c, F_PSH | F_ACK, b"XX")), Cmd::Frame(between[b].1.clone()), Cmd::Frame(f.tcp(1002, c, F_PSH | F_ACK, p))]
+                } else {
+                    vec![Cmd::Frame(f.tcp(1000, c, F_PSH | F_ACK, &p[..cut])), Cmd::Frame(between[b].1.clone()), Cmd::Frame(f.tcp(1000 + cut as u32, c, F_PSH | F_ACK, &p[cut..]))]
+                }
+            },
+            |it: &Item, sk: &mut Sink| {
+                sk.count("frames", 3);
+                let (pi, cut, b, junk) = plan[it.idx as usize];
+                let mut stream: Vec<u8> = Vec::new();
+                if junk {
+                    stream.extend_from_slice(b"XX");
+                }
+                stream.extend_from_slice(&firsts[pi].bytes);
+                let want = match crate::sig::dispatch(&sigs, &stream, false) {
+                    crate::sig::Dispatch::Matched(p, _, _) => match p {
+                        crate::sig::Proto::Http => "http",
+                        crate::sig::Proto::Ssh => "ssh",
+                        crate::sig::Proto::Ghost => "ghost",
+                        crate::sig::Proto::Stun => "stun",
+                        crate::sig::Proto::RpcTcp => "rpc-tcp",
+                        crate::sig::Proto::RpcUdp => "rpc-udp",
+                        crate::sig::Proto::Smb1 | crate::sig::Proto::Smb2 => "smb",
+                    },
+                    _ => "nobody",
+                };
+                let app = it.outs[3].reply.as_deref().and_then(crate::mask::app_payload).map(|(_, p)| p).unwrap_or_default();
+                let got = if app.is_empty() { "nobody" } else { responder_of(&app) };
+                if got != want {
+                    sk.violation(Violation {
+                        prop: "C10".into(),
+                        key: format!("decision-depends-on-non-data-segment:{}:{}-instead-of:{}", between[b].0, got, want),
+                        what: format!("'{}' {} with a {} segment in between: the last segment is answered by {} (the stream selects {})", firsts[pi].name, if junk { "after two junk bytes".to_string() } else { format!("cut after {} bytes", cut) }, between[b].0, got, want),
+                        cfg: cfgs.clone(),
+                        cmds: it.cmds.to_vec(),
+                        idx: it.idx,
+                        stage: "interleaved-non-data".into(),
+                    });
+                }
+            },
+            &mut rep.sink,
+        );
+        rep.stage("interleaved-non-data", "5 protocols' first requests x {cut after 1 / 2 / 3 bytes (inside the signature), whole behind two junk bytes} x 9 segments in between (bare ACK with 3 acknowledgement numbers, SYN, RST, RST|ACK, FIN|ACK, FIN, empty PSH|ACK): the responder the stream selects", plan.len() as u64, t0);
+    }
     // the decision does not depend on the VALUE of the flow's cookie: keys under which the flow
     // 40000 -> 80 has the cookie 0xffffffff (valid acknowledgement 0), 0, 0xfffffffe, 1 (found
     // offline with the harness's own SipHash, confirmed against the real SYN-ACK here)
